@@ -733,7 +733,7 @@ impl XmlAttribute {
     pub fn empty(name: &str, context: &Context) -> error::Result<Rc<XmlItem>> {
         let xml = format!("{}=''", name);
         let (rest, tree) = xml_parser::attribute(xml.as_str())?;
-        if rest.is_empty() {
+        if rest.is_empty() && is_qname(name) {
             XmlAttribute::node(&tree, None, context)
         } else {
             Err(error::Error::InvalidData(name.to_string()))
@@ -2480,7 +2480,7 @@ impl XmlElement {
     pub fn empty(name: &str, context: &Context) -> error::Result<Rc<XmlItem>> {
         let xml = format!("<{} />", name);
         let (rest, tree) = xml_parser::element(xml.as_str())?;
-        if rest.is_empty() {
+        if rest.is_empty() && is_qname(name) {
             XmlElement::node(&tree, None, context)
         } else {
             Err(error::Error::InvalidData(name.to_string()))
@@ -3568,7 +3568,7 @@ impl XmlProcessingInstruction {
     pub fn empty(target: &str, context: &Context) -> error::Result<Rc<XmlItem>> {
         let xml = format!("<?{}?>", target);
         let (rest, tree) = xml_parser::pi(xml.as_str())?;
-        if rest.is_empty() {
+        if rest.is_empty() && tree.target == target && tree.value.is_none() {
             Ok(XmlProcessingInstruction::node(&tree, None, context))
         } else {
             Err(error::Error::InvalidData(target.to_string()))
@@ -4596,6 +4596,12 @@ fn equal_qname(a: xml_nom::model::QName, b: xml_nom::model::QName) -> bool {
             xml_nom::model::QName::Unprefixed(b) => a == b,
         },
     }
+}
+
+/// The whole string is one qualified name (it is spliced into markup by the `empty`
+/// constructors: white space or an attribute after the name must not get through).
+fn is_qname(value: &str) -> bool {
+    matches!(xml_nom::qname(value), Ok(("", _)))
 }
 
 fn escape(value: &str) -> String {
